@@ -8,9 +8,11 @@ import (
 	"encoding/json"
 	"fmt"
 	"os"
+	"os/exec"
 	"path/filepath"
 	"sort"
 	"strconv"
+	"strings"
 	"sync"
 	"time"
 )
@@ -174,4 +176,120 @@ func (r *Run) Finish() int {
 func HarnessError(format string, a ...any) {
 	fmt.Fprintf(os.Stderr, "HARNESS-ERROR: "+format+"\n", a...)
 	os.Exit(2)
+}
+
+// Shard returns (i, n) when this process is one shard of a sharded run (env VERIF_SHARD="i/n").
+func Shard() (int, int) {
+	var i, n int
+	if _, err := fmt.Sscanf(os.Getenv("VERIF_SHARD"), "%d/%d", &i, &n); err != nil || n <= 0 {
+		return 0, 1
+	}
+	return i, n
+}
+
+// RunSharded re-executes the current check n times, one shard after the other (memory is returned
+// to the system between shards), and merges the shards' evidence: integer coverage counts are
+// added, exhaustive is the conjunction, samples are concatenated; the shards' VIOLATION and
+// KNOWN-FINDING lines pass through (known findings once). Exit code: 1 if any shard reported a
+// violation, 2 if any shard failed as a harness error, else 0.
+func RunSharded(prop, level string, n int) int {
+	start := time.Now()
+	dir, err := os.MkdirTemp("", "verif-shards-")
+	if err != nil {
+		HarnessError("shards: %v", err)
+	}
+	defer os.RemoveAll(dir)
+	_ = os.RemoveAll(filepath.Join(Root, "replays", prop))
+	merged := map[string]any{}
+	exhaustive := true
+	var samples []any
+	var assumptions []any
+	code := 0
+	viol := 0
+	seenKnown := map[string]bool{}
+	for i := 0; i < n; i++ {
+		sd := filepath.Join(dir, strconv.Itoa(i))
+		cmd := exec.Command(os.Args[0], os.Args[1:]...)
+		cmd.Env = append(os.Environ(), fmt.Sprintf("VERIF_SHARD=%d/%d", i, n), "VERIF_EVIDENCE_DIR="+sd)
+		cmd.Stderr = os.Stderr
+		out, err := cmd.Output()
+		for _, line := range strings.Split(string(out), "\n") {
+			if strings.HasPrefix(line, "KNOWN-FINDING:") {
+				if !seenKnown[line[:min(len(line), 200)]] {
+					seenKnown[line[:min(len(line), 200)]] = true
+					fmt.Println(line)
+				}
+			} else if line != "" {
+				fmt.Println(line)
+			}
+		}
+		if err != nil {
+			if ee, ok := err.(*exec.ExitError); ok && ee.ExitCode() == 1 {
+				code = 1
+			} else {
+				fmt.Fprintf(os.Stderr, "HARNESS-ERROR: shard %d/%d: %v\n", i, n, err)
+				return 2
+			}
+		}
+		b, err := os.ReadFile(filepath.Join(sd, prop+".json"))
+		if err != nil {
+			fmt.Fprintf(os.Stderr, "HARNESS-ERROR: shard %d/%d wrote no evidence: %v\n", i, n, err)
+			return 2
+		}
+		var ev struct {
+			Coverage    map[string]any `json:"coverage"`
+			Assumptions []any          `json:"assumptions"`
+			Violations  int            `json:"violations"`
+		}
+		if err := json.Unmarshal(b, &ev); err != nil {
+			HarnessError("shard evidence: %v", err)
+		}
+		viol += ev.Violations
+		assumptions = ev.Assumptions
+		for k, v := range ev.Coverage {
+			switch x := v.(type) {
+			case float64:
+				if old, ok := merged[k].(float64); ok {
+					merged[k] = old + x
+				} else if _, seen := merged[k]; !seen {
+					merged[k] = x
+				}
+			case bool:
+				if k == "exhaustive" {
+					exhaustive = exhaustive && x
+				}
+			case []any:
+				if k == "samples" && len(samples) < 8 {
+					samples = append(samples, x...)
+				}
+			default:
+				if _, seen := merged[k]; !seen {
+					merged[k] = v
+				}
+			}
+		}
+	}
+	for k, v := range merged {
+		if f, ok := v.(float64); ok && f == float64(int64(f)) {
+			merged[k] = int64(f)
+		}
+	}
+	if len(samples) > 8 {
+		samples = samples[:8]
+	}
+	merged["samples"] = samples
+	merged["exhaustive"] = exhaustive
+	merged["shards"] = n
+	ev := map[string]any{"property_id": prop, "tier": Tier(), "seed": Seed(), "level": level, "coverage": merged,
+		"assumptions": assumptions, "wall_s": time.Since(start).Seconds(), "violations": viol}
+	b, _ := json.MarshalIndent(ev, "", " ")
+	evDir := filepath.Join(Root, "evidence")
+	if d := os.Getenv("VERIF_EVIDENCE_DIR"); d != "" {
+		evDir = d
+	}
+	_ = os.MkdirAll(evDir, 0o755)
+	if err := os.WriteFile(filepath.Join(evDir, prop+".json"), b, 0o644); err != nil {
+		HarnessError("cannot write evidence: %v", err)
+	}
+	return code
 }
